@@ -1226,6 +1226,9 @@ where
         }
 
         std::mem::swap(args, &mut best_args);
+        // best_args was narrowed down to a block being parsed, outer parser should keep seeing
+        // everything it was seeing before, including `--help` around a block that failed to parse
+        args.set_scope(original_scope);
         Err(Error(best_error))
     }
 
